@@ -488,6 +488,25 @@ class Program:
     def find(self, substr, kind=None):
         return [f for f in self.fns if substr in f.path and (kind is None or f.kind == kind)]
 
+    def fn_inlined(self, path, keep=(), module=None, max_rounds=3):
+        """the body of `path` with its calls to crate-private helper functions inlined (MIR-level inlining, see inline_calls): what a
+        structural rule sees is then the same whether a piece of the anchored function was moved into a helper or not.
+        keep: callee names the rules themselves look for by name (never inlined); module: only helpers whose path starts with it."""
+        f = self.fn(path)
+        if f is None:
+            return None
+        key = (f.path, tuple(sorted(keep)), module, max_rounds)
+        cache = self.__dict__.setdefault('_inl', {})
+        if key not in cache:
+            def select(h, t):
+                if h.name in keep or h.kind != 'Fn' and h.kind != 'AssocFn':
+                    return False
+                if module is not None and not short(h.path).startswith(module):
+                    return False
+                return str(h.j.get('vis') or '').startswith('Restricted')
+            cache[key] = inline_calls(self, f, select, max_rounds=max_rounds)
+        return cache[key]
+
     def closures_of(self, parent_path):
         return [f for f in self.fns if f.kind == 'Closure' and f.j.get('parent') == parent_path]
 
@@ -910,3 +929,83 @@ def between(fn, start_block, end_block, barrier=()):
             back.add(p)
             q.append(p)
     return fwd & back
+
+
+# ----------------------------------------------------------------------------- MIR-level inlining
+
+def _remap(x, lmap, bmap, pbase):
+    """deep copy of a MIR JSON fragment with locals, block ids and promoted indices renumbered"""
+    if isinstance(x, list):
+        return [_remap(y, lmap, bmap, pbase) for y in x]
+    if not isinstance(x, dict):
+        return x
+    out = {}
+    is_place = isinstance(x.get('l'), int) and isinstance(x.get('p'), list)
+    for k, v in x.items():
+        if is_place and k == 'l':
+            out[k] = lmap(v)
+        elif k == 'index' and isinstance(v, int):
+            out[k] = lmap(v)
+        elif k in ('target', 'otherwise', 'unwind') and isinstance(v, int) and not isinstance(v, bool):
+            out[k] = bmap(v)
+        elif k == 'targets' and isinstance(v, list):
+            out[k] = [[a, bmap(b)] for a, b in v]
+        elif k == 'promoted' and isinstance(v, int) and not isinstance(v, bool) and x.get('k') == 'unevaluated':
+            out[k] = v + pbase
+        else:
+            out[k] = _remap(v, lmap, bmap, pbase)
+    return out
+
+
+def inline_calls(prog, fn, select, max_rounds=3, max_blocks=6000):
+    """returns a new Fn: `fn` with every call to a local function h for which select(h, term) holds replaced by h's body
+    (parameters become fresh locals assigned from the argument operands, `return` becomes an assignment of the callee's _0 to the
+    call's destination followed by a goto to the call's target). Recursive callees are left alone. Repeats up to max_rounds."""
+    import copy
+    j = copy.deepcopy(fn.j)
+    j.setdefault('promoted', [])
+    inlined = []
+    for _round in range(max_rounds):
+        changed = False
+        nblocks = len(j['blocks'])
+        for b in range(nblocks):
+            blk = j['blocks'][b]
+            t = blk['term']
+            if t['k'] != 'call' or blk['cleanup'] or t.get('target') is None:
+                continue
+            c = t['callee']
+            if not c.get('local'):
+                continue
+            h = prog.by_path.get(c['def']) or prog.by_path.get(c.get('resolved') or '')
+            if h is None or h.path == fn.path or not select(h, t):
+                continue
+            if any(tc['callee'].get('local') and short(tc['callee']['def']) in (short(h.path), short(fn.path)) for _, tc in h.calls()):
+                continue  # recursion
+            if len(j['blocks']) + len(h.blocks) > max_blocks or h.arg_count != len(t['args']):
+                continue
+            base_l, base_b, base_p = len(j['locals']), len(j['blocks']), len(j['promoted'])
+            for d in h.locals:
+                nd = dict(d)
+                nd['id'] = base_l + d['id']
+                nd['arg'] = False
+                nd['inlined_from'] = h.path
+                j['locals'].append(nd)
+            j['promoted'] += copy.deepcopy(h.j.get('promoted') or [])
+            lmap = lambda l, base_l=base_l: l + base_l
+            bmap = lambda x, base_b=base_b: x + base_b
+            for hb in h.blocks:
+                nb = _remap(hb, lmap, bmap, base_p)
+                nb['id'] = base_b + hb['id']
+                if nb['term']['k'] == 'return':
+                    nb['stmts'] = nb['stmts'] + [dict(k='assign', pl=t['dest'], rv=dict(k='use', op=dict(k='move', pl=dict(l=base_l, p=[]))), span=t.get('span'), exp=False)]
+                    nb['term'] = dict(k='goto', target=t['target'], span=t.get('span'), exp=False)
+                j['blocks'].append(nb)
+            for i, a in enumerate(t['args']):
+                blk['stmts'] = blk['stmts'] + [dict(k='assign', pl=dict(l=base_l + 1 + i, p=[]), rv=dict(k='use', op=a), span=t.get('span'), exp=False)]
+            blk['term'] = dict(k='goto', target=base_b, span=t.get('span'), exp=False, inlined_call=c['def'])
+            inlined.append(dict(caller_block=b, helper=h.path, block_base=base_b, local_base=base_l))
+            changed = True
+        if not changed:
+            break
+    j['inlined'] = inlined
+    return Fn(j)
